@@ -67,7 +67,7 @@ func genC02(seed uint64, tier string) *plan.Plan {
 			}
 			pl.Ops = append(pl.Ops, plan.Op{K: "adv", A: int64(d)})
 		case x < 10:
-			pl.Ops = append(pl.Ops, plan.Op{K: "dataunk", A: int64(9 + r.IntN(20))})
+			pl.Ops = append(pl.Ops, plan.Op{K: "dataunk", A: int64(9 + r.IntN(3)), B: int64(r.IntN(nT+1) - 1), C: int64(r.Uint64() >> 1)})
 		case x < 11:
 			op := plan.Op{K: "data", A: int64(r.IntN(nT)), B: 1, C: int64(r.Uint64() >> 1), D: 20}
 			op.F = []plan.Op{{K: "count", A: int64(1 + r.IntN(2))}}
